@@ -24,7 +24,8 @@ class LockFile:
         except FileExistsError:
             self.fd = os.open(self.filename, os.O_RDWR | os.O_CLOEXEC)
         else:
-            os.write(self.fd, bytes(maximum - minimum))
+            # one byte per address, both ends of the range included
+            os.ftruncate(self.fd, maximum - minimum + 1)
 
     def close(self):
         os.close(self.fd)
@@ -64,7 +65,7 @@ class ParallelMailboxLock:
     """
     def __init__(self, lock_file, no):
         self.lock_file = lock_file
-        assert self.lock_file.minimum <= no < self.lock_file.maximum
+        assert self.lock_file.minimum <= no <= self.lock_file.maximum
         self.no = no - self.lock_file.minimum
         self.counter = None
 
